@@ -26,23 +26,75 @@ ASSUMPTIONS = ["meaning of a SymPy expression = its evalf value; meaning of a Ca
 
 
 # ------------------------------------------------------------------------------ helpers
+class _Timeout(Exception):
+    pass
+
+
+class time_limit:
+    """SymPy occasionally takes minutes on a pathological tree (towers of powers of huge numbers): every oracle
+    evaluation and every conversion is capped; a cap that fires makes that tree 'evalfail'/'rejected', never a verdict"""
+
+    def __init__(self, seconds):
+        self.s = seconds
+
+    def __enter__(self):
+        import signal
+
+        def h(sig, frm):
+            raise _Timeout()
+
+        self.old = signal.signal(signal.SIGALRM, h)
+        signal.setitimer(signal.ITIMER_REAL, self.s)
+
+    def __exit__(self, *a):
+        import signal
+        signal.setitimer(signal.ITIMER_REAL, 0)
+        signal.signal(signal.SIGALRM, self.old)
+        return False
+
+
+def exact(x):
+    """python float -> SymPy Float holding exactly that binary value with 70 digits of working precision (SymPy's default
+    15-digit Floats round every intermediate result: floor(a/b) at a/b == 1, acos(exp(x - x)) ... come out wrong)"""
+    return sp.Float(float(x), 70)
+
+
 def sym_value(s, subs):
-    """numeric value of a sympy object (or python bool/number) at subs; raises if not evaluable"""
+    """numeric value of a sympy object (or python bool/number) at subs; raises if not evaluable.
+    Floating-point atoms and the evaluation point are first re-created as 70-digit Floats holding the same binary values;
+    the value is then taken at 30 and 60 digits, which must agree (otherwise the point is ill-conditioned)"""
     if isinstance(s, bool):
         return 1.0 if s else 0.0
     if isinstance(s, (int, float)):
         return float(s)
-    v = s.subs(subs) if hasattr(s, "subs") else s
+    with time_limit(4.0):
+        return _sym_value(s, subs)
+
+
+def _sym_value(s, subs):
+    if hasattr(s, "atoms"):
+        fl = {f: exact(f) for f in s.atoms(sp.Float)}
+        if fl:
+            s = s.xreplace(fl)
+    v = s.subs({k: exact(x) for k, x in subs.items()}) if hasattr(s, "subs") else s
     if v is sp.true:
         return 1.0
     if v is sp.false:
         return 0.0
     if isinstance(v, bool):
         return 1.0 if v else 0.0
-    v = complex(sp.N(v, 30))
-    if abs(v.imag) > 1e-12 * max(1, abs(v.real)):
+    v30 = complex(sp.N(v, 30))
+    v60 = complex(sp.N(v, 60))
+    if abs(v60.imag) > 1e-12 * max(1, abs(v60.real)):
         raise ValueError("complex")
-    return v.real
+    # the oracle must be stable under its own working precision, otherwise the point is numerically ill-conditioned
+    if not close(v30.real, v60.real):
+        raise IllConditioned()
+    return v60.real
+
+
+class IllConditioned(Exception):
+    pass
 
 
 def close(a, b):
@@ -78,16 +130,21 @@ class SXGen:
             return self.V[self.rng.integers(len(self.V))]
         if r < 0.8:
             return ca.SX(int(self.rng.integers(-3, 4)))
+        if r < 0.86:  # constants that are tiny or a hair away from an integer (must not be rounded)
+            return ca.SX(float(self.rng.choice([3.0000004, -1.9999997, 1.0000002, 0.9999996])))
         return ca.SX(float(np.round(self.rng.normal() * 3, 3)))
 
     def cond(self, d):
+        """boolean-valued tree: comparisons of numeric sub-trees, combined with and/or/not.  Booleans are never used
+        as operands of comparisons or arithmetic (CasADi's 0/1 truthiness vs SymPy's Boolean algebra is not among the
+        constructs the statement lists)"""
         r = self.rng.random()
         k = list(CMPS)[self.rng.integers(len(CMPS))]
         if self.rng.random() < 0.15 and k in ("eq", "ne"):
-            e = self.num(d - 1)
+            e = self.num(d - 1, False)
             c = CMPS[k](e, e + 0)  # equal values, not structurally identical in general
         else:
-            c = CMPS[k](self.num(d - 1), self.num(d - 1))
+            c = CMPS[k](self.num(d - 1, False), self.num(d - 1, False))
         if d > 1 and r < 0.25:
             return ca.logic_and(c, self.cond(d - 1))
         if d > 1 and r < 0.5:
@@ -96,18 +153,18 @@ class SXGen:
             return ca.logic_not(c)
         return c
 
-    def num(self, d):
+    def num(self, d, allow_bool=True):
         if d <= 0 or self.rng.random() < 0.2:
             return self.leaf()
         r = self.rng.random()
         if r < 0.35:
             k = list(UN)[self.rng.integers(len(UN))]
-            return UN[k](self.num(d - 1))
+            return UN[k](self.num(d - 1, False))
         if r < 0.8:
             k = list(BI)[self.rng.integers(len(BI))]
-            return BI[k](self.num(d - 1), self.num(d - 1))
-        if r < 0.92:
-            return ca.if_else(self.cond(d - 1), self.num(d - 1), self.num(d - 1))
+            return BI[k](self.num(d - 1, False), self.num(d - 1, False))
+        if r < 0.92 or not allow_bool:
+            return ca.if_else(self.cond(d - 1), self.num(d - 1, False), self.num(d - 1, False))
         return self.cond(d - 1)  # a boolean as the final value (0/1)
 
 
@@ -116,7 +173,8 @@ def c2s_agree(cts, e, V, names, pts):
     try:
         with warnings.catch_warnings():
             warnings.simplefilter("ignore")
-            s = cts(e)
+            with time_limit(20.0):
+                s = cts(e)
     except Exception as ex:
         return "rejected", type(ex).__name__
     F = ca.Function("F", V, [e])
@@ -128,12 +186,19 @@ def c2s_agree(cts, e, V, names, pts):
         subs = {sp.Symbol(n): float(v) for n, v in zip(names, pt)}
         try:
             val = sym_value(s, subs)
+        except IllConditioned:
+            continue
         except Exception as ex:
             return "evalfail", type(ex).__name__
         if math.isnan(val):  # SymPy declares the point outside the domain (e.g. atan2(0, 0))
             continue
         n_ok += 1
         if not close(val, ref):
+            pert = [float(F(*[v * (1 + k) for v in pt])) for k in (1e-13, -1e-13)]
+            if any(not close(pv, ref) for pv in pert):
+                continue  # ill-conditioned at this point in double precision (e.g. fmod by a tiny divisor)
+            if discontinuity_margin(e, V, pt) < 1e-9:
+                continue
             if has_nonfinite_intermediate(e, V, pt):
                 # some sub-expression is undefined at this point (log of a negative number feeding fmax, ...): the point is
                 # not in the domain of the expression even though IEEE arithmetic produced a finite final value
@@ -169,6 +234,43 @@ def has_nonfinite_intermediate(e, V, pt):
         return False
     F = ca.Function("N", V, [ca.vertcat(*nodes)])
     return not np.isfinite(np.array(F(*pt))).all()
+
+
+def discontinuity_margin(e, V, pt):
+    """smallest distance of any discontinuous node of e to its jump at pt: floor/ceil at an integer, fmod at an integer
+    quotient, remainder at a half-integer quotient, sign at 0, comparisons at equality.  A point closer than 1e-9 to a
+    jump (e.g. fmod(c, c): quotient exactly 1) cannot be decided by comparing two arithmetics."""
+    margins, seen, stack = [], set(), [e]
+    while stack and len(seen) < 600:
+        x = stack.pop()
+        h = x.element_hash()
+        if h in seen or x.is_symbolic() or x.is_constant():
+            continue
+        seen.add(h)
+        op = x.op()
+        d = [x.dep(i) for i in range(x.n_dep())]
+        if op in (ca.OP_FLOOR, ca.OP_CEIL):
+            margins.append(ca.fabs(d[0] - ca.floor(d[0] + 0.5)))
+        elif op == ca.OP_FMOD:
+            q = d[0] / d[1]
+            margins.append(ca.fabs(q - ca.floor(q + 0.5)))
+        elif op == ca.OP_REMAINDER:
+            q = d[0] / d[1]
+            margins.append(ca.fabs(q - ca.floor(q) - 0.5))
+        elif op == ca.OP_SIGN:
+            margins.append(ca.fabs(d[0]))
+        elif op in (ca.OP_LT, ca.OP_LE):
+            margins.append(ca.fabs(d[0] - d[1]) / ca.fmax(1, ca.fabs(d[0])))
+        elif op in (ca.OP_EQ, ca.OP_NE):
+            diff = ca.fabs(d[0] - d[1]) / ca.fmax(1, ca.fabs(d[0]))
+            margins.append(ca.if_else(diff == 0, 1.0, diff))  # exact equality is decidable in both arithmetics
+        for y in d:
+            stack.append(y)
+    if not margins:
+        return float("inf")
+    F = ca.Function("M", V, [ca.mmin(ca.vertcat(*margins))])
+    m = float(F(*pt))
+    return m if m == m else 0.0
 
 
 def minimal_sx(cts, e, V, names, pts):
@@ -250,6 +352,14 @@ def casadi_to_sympy_dir(ctx, n_trees, depth):
     hs = np.array([hash(k) & 0xFFFFFFFFFFFF for k in seen], dtype=np.float64)
     if len(hs):
         ctx.distinct(hs[:, None])
+    # floating-point constants must come back unchanged, however close to an integer or to zero they are
+    for cval in (1e-7, 2.5e-7, -3e-8, 3.0000004, -1.9999997, 1.0000002, 0.9999996, 1e-12, 2.5, -0.3, 1e-3, 123456.789, 1e20):
+        e = ca.SX(cval) * V[0] + ca.if_else(ca.fabs(V[1]) < cval, 1, 2)
+        pts = [np.array([1e6, cval * 0.5, 0.0]), np.array([-3.0, cval * 2 + 1e-30, 0.0]), np.array([7e5, -cval * 0.9, 1.0])]
+        st, det = c2s_agree(cts, e, V, names, pts)
+        ctx.tally("casadi_to_sympy:constant")
+        if st == "bad":
+            ctx.violation("casadi_to_sympy_value", "OP_CONST", {"constant": cval, **det})
     # symbol table: the same parameter always maps to the same sympy symbol within one table
     syms = {}
     s1 = cts(V[0] + V[1], syms)
@@ -271,8 +381,10 @@ class SPGen:
             return sp.Integer(int(self.rng.integers(-4, 5)))
         if r < 0.5:
             return sp.Rational(int(self.rng.integers(-7, 8)), int(self.rng.integers(1, 9)))
-        if r < 0.9:
+        if r < 0.8:
             return sp.Float(float(np.round(self.rng.normal() * 3, 3)))  # non-integer, maybe negative
+        if r < 0.9:
+            return sp.Float(float(self.rng.choice([3.0000004, -1.9999997, 0.9999996, 1.0000002])))
         return sp.Float(float(self.rng.integers(-3, 4)))  # integer-valued float
 
     def positive(self, d):
@@ -313,7 +425,8 @@ F_IMPL = {"f": (ca.sin, sp.sin), "g": (lambda x: x * x + 1, lambda x: x * x + 1)
 
 def s2c_agree(stc, e, names, pts, f_dict, repl, cse=False, symbols=None):
     try:
-        res, syms = stc(e, f_dict=f_dict, symbols=symbols, cse=cse)
+        with time_limit(20.0):
+            res, syms = stc(e, f_dict=f_dict, symbols=symbols, cse=cse)
     except Exception as ex:
         return "rejected", type(ex).__name__, None
     res = ca.SX(res)
@@ -343,6 +456,8 @@ def s2c_agree(stc, e, names, pts, f_dict, repl, cse=False, symbols=None):
         val = float(F(*[subs[sp.Symbol(n)] for n in free])) if free else float(ca.DM(res))
         n_ok += 1
         if not close(val, ref):
+            if free and any(not close(float(F(*[subs[sp.Symbol(n)] * (1 + k) for n in free])), val) for k in (1e-13, -1e-13)):
+                continue  # ill-conditioned in double precision at this point (e.g. cos of 1e7)
             return "bad", {"point": {n: subs[sp.Symbol(n)] for n in free}, "sympy_value": ref, "casadi_value": val}, syms
     return ("ok" if n_ok else "nopoints"), None, syms
 
